@@ -7,7 +7,7 @@ from . import cp1252, numbers, strings
 
 
 class RefReader:
-    __slots__ = ("data", "pos", "chunked", "chunk_start", "ops")
+    __slots__ = ("data", "pos", "chunked", "chunk_start", "ops", "touches")
 
     def __init__(self, data):
         self.data = bytes(data)
@@ -15,6 +15,7 @@ class RefReader:
         self.chunked = False
         self.chunk_start = 0
         self.ops = 0  # number of primitive operations (fuel accounting)
+        self.touches = 0  # every interaction incl. `remaining` queries (fuel for loops that never read)
 
     # -- observers
     @property
@@ -24,6 +25,7 @@ class RefReader:
 
     @property
     def remaining(self):
+        self.touches += 1
         if self.chunked:
             b = self.brk
             return b - min(self.pos, b)
@@ -44,6 +46,7 @@ class RefReader:
     # -- primitives
     def _take(self, n):
         self.ops += 1
+        self.touches += 1
         n = min(n, self.remaining)
         out = self.data[self.pos:self.pos + n]
         self.pos += n
@@ -97,6 +100,7 @@ class RefReader:
 
     def next_chunk(self):
         self.ops += 1
+        self.touches += 1
         if not self.chunked:
             raise RuntimeError("not in chunked reading mode")
         p = self.brk
